@@ -51,3 +51,21 @@ pub use lex::{Lexer, Token, EOF};
 pub use loc::Loc;
 pub use parse::{Parser, Stmt};
 pub use program::Program;
+
+/// Verification hooks: re-export the public items of private modules so that an external
+/// harness can drive the lexer, parser, argument binder and stdlib tables directly.
+/// Compiled only with `--cfg resynth_verif`; adds nothing otherwise.
+#[cfg(resynth_verif)]
+pub mod verif {
+    pub use crate::args::*;
+    pub use crate::err::*;
+    pub use crate::lex::*;
+    pub use crate::libapi::*;
+    pub use crate::loc::*;
+    pub use crate::object::*;
+    pub use crate::parse::*;
+    pub use crate::str::*;
+    pub use crate::sym::*;
+    pub use crate::traits::*;
+    pub use crate::val::*;
+}
